@@ -53,6 +53,8 @@ BREAKING = [
     # --- allocate
     dict(id="b040", file=Q, old="                    rem_amount -= quantum\n", new="", props=["C06"]),
     dict(id="b041", file=Q, old="        remainder = self - sum(portions)", new="        remainder = sum(portions) - self", props=["C06"]),
+    dict(id="b043", file=Q, old="                                reverse=(rem_amount < 0))", new="                                reverse=(rem_amount > 0))", props=["C06"]),
+    dict(id="b044", file=Q, old="                                    (portion.amount - self.amount * fraction,", new="                                    (portion.amount / self.amount - fraction,", props=["C06"]),
     dict(id="b042", file=Q, old="        fractions = [ratio / total for ratio in ratios]", new="        fractions = [ratio / n_portions for ratio in ratios]", props=["C06"]),
     # --- term
     dict(id="b050", file=T, old="            if isinstance(elem, Rational):\n                # a numerical element is only normalized if it's not raised\n                # to a power\n                if exp == 1:\n                    self._normalized = self", new="            if isinstance(elem, Rational):\n                self._normalized = self", props=["C07"]),
